@@ -23,9 +23,9 @@ ASSUMPTIONS = ["recursive_seqlets: float64 tracks, attribution tolerance 1e-9; t
 
 
 def bound(tier):
-    return ("recursive: L=40, 1 bump at every position x 3 widths x 2 signs x 2 amplitudes, 2 bumps on a reduced grid; tfmodisco: L=80, window {5,9}, flank {0,2,5}"
+    return ("recursive: L=40, 1 bump at every position x 3 widths x 2 signs x 2 amplitudes, 2 bumps on a reduced grid; tfmodisco: L=80, window {5,9}, flank {0,2,5}; L=40, even windows {12,20}, flank {0,5,10,12,14,17} (seqlet == track and seqlet longer than the track), 3 and 6 examples"
             if tier == "quick" else
-            "recursive: L in {40,60}, 1 bump at every position, 2 bumps (second at every position for a reduced first set), 1-3 examples; tfmodisco: L in {80,120}, window {5,9,21}, flank {0,2,5,10}")
+            "recursive: L in {40,60}, 1 bump at every position, 2 bumps (second at every position for a reduced first set), 1-3 examples; tfmodisco: L in {80,120}, window {5,9,21}, flank {0,2,5,10}; L=40, even windows {6,12,20}, flank {0,5,10,12,14,17}, 3 and 6 examples")
 
 
 def shards(tier, seed):
@@ -41,6 +41,10 @@ def shards(tier, seed):
     for L in ((80,) if tier == "quick" else (80, 120)):
         for w in ((5, 9) if tier == "quick" else (5, 9, 21)):
             out.append(dict(name="tfm/L%d/w%d" % (L, w), kind="tfm", L=L, w=w, weight=L * 30))
+    # even window sizes on tracks about as long as one seqlet: flanks for which the seqlet fits exactly (window + 2*flank == L) and for
+    # which it no longer fits (window + flank <= L < window + 2*flank: the two masked margins overlap), several examples per track table
+    for w in ((12, 20) if tier == "quick" else (6, 12, 20)):
+        out.append(dict(name="tfm/L40short/w%d" % w, kind="tfm", L=40, w=w, ns=(3, 6), flanks=(0, 5, 10, 12, 14, 17), step=1, weight=2400))
     return out
 
 
@@ -179,11 +183,12 @@ def run_tfm(rec, sh, tier, seed):
     L, w = sh["L"], sh["w"]
     tot_rows = tot_runs = tot0 = totL = 0
     n_calls = n_refused = 0
-    flanks = (0, 2, 5) if tier == "quick" else (0, 2, 5, 10)
-    for n in (1, 2, 3):
+    flanks = sh.get("flanks") or ((0, 2, 5) if tier == "quick" else (0, 2, 5, 10))
+    n_short = n_whole = 0
+    for n in sh.get("ns", (1, 2, 3)):
         base = background(n, L, seed, amp=0.2)
         widths = (max(3, w - 2), w + 2)
-        step = 1 if tier != "quick" else 2
+        step = sh.get("step") or (1 if tier != "quick" else 2)
         bumps = [(bw, sg, a, s) for bw in widths for sg in (1, -1) for a in (2.0,) for s in range(0, L - bw + 1, step)]
         for bi, b in enumerate(bumps):
             X = base.copy()
@@ -207,6 +212,7 @@ def run_tfm(rec, sh, tier, seed):
                 case = dict(fn="tfmodisco_seqlets", L=L, n=n, window_size=w, flank=fl, bump=list(b), second_bump_start=s2, seed=seed, huge_peak_at_2_8=huge, flat_topped=plateau)
                 st, df = call(tfmodisco_seqlets, Xt, window_size=w, flank=fl)
                 n_calls += 1
+                n_short += int(w + 2 * fl > L)
                 if st != "ok":
                     rec.case(1, 0)
                     if "ZeroDivision" in str(df) and tfm_null_undefined(Xc, w):
@@ -239,6 +245,7 @@ def run_tfm(rec, sh, tier, seed):
                     tot_rows += 1
                     tot0 += int(s_ == 0)
                     totL += int(t_ == L)
+                    n_whole += int(s_ == 0 and t_ == L)
                 for e in range(n):
                     starts = sorted(r[1] for r in rows if r[0] == e)
                     for a_, b_ in zip(starts, starts[1:]):
@@ -255,6 +262,8 @@ def run_tfm(rec, sh, tier, seed):
     rec.count("rows_with_start_0", tot0)
     rec.count("rows_with_end_L", totL)
     rec.count("runs_with_seqlets", tot_runs)
+    rec.count("tfm_calls_on_tracks_shorter_than_a_seqlet", n_short)
+    rec.count("tfm_rows_spanning_the_whole_track", n_whole)
     rec.sample(dict(kind="tfm", L=L, window=w, flanks=list(flanks), bumps="every start position, 2 widths, 2 signs, + a second weaker bump"))
 
 
